@@ -1,5 +1,5 @@
 """C03 — every produced image is a well-formed MS-CFB file by an independent checker."""
-import os, re, bisect, glob
+import os, re, bisect, glob, shutil
 from . import common as C
 from . import apilib as A
 from . import physlib as P
@@ -132,6 +132,30 @@ def run(ctx):
             hist[k] = hist.get(k, 0) + v
         if sample and len(samples) < 2:
             samples.append(sample)
+    # files that start in a foreign layout (red nodes, permuted sectors, gaps) and are then mutated:
+    # the result must still be well-formed (real images judged directly, model in lock-step)
+    laydir = ctx.path("lay")
+    os.makedirs(laydir, exist_ok=True)
+    for f in glob.glob(os.path.join(laydir, "*")):
+        os.remove(f)
+    lops, limp, lmod, lspec = ctx.path("lay.ops"), ctx.path("lay.impl"), ctx.path("lay.model"), ctx.path("lay.spec")
+    rc, out = C.harness(["layout", "--seed", ctx.seed + 41, "--count", 200 if quick else 3000, "--outdir", laydir, "--ops", lops, "--impl", limp], timeout=3000)
+    if rc == 0:
+        judged += P.layout_lockstep(ctx, lops, limp, lmod, lspec)
+        after = sorted(glob.glob(os.path.join(laydir, "*_after.cfb")))
+        lst, res = ctx.path("lay.list"), ctx.path("lay.res")
+        open(lst, "w").write("\n".join(after) + "\n")
+        C.driver(["speccheck"], lst, res)
+        for f, v in zip(after, open(res).read().splitlines()):
+            direct += 1
+            if v.startswith("bad "):
+                keep = os.path.join(ctx.replaydir, "foreign_layout_mutated.cfb")
+                shutil.copy(f, keep)
+                shutil.copy(f.replace("_after", ""), keep.replace(".cfb", "_before.cfb"))
+                C.add_violation(ctx, "foreign:" + rule_sig(v), "a foreign (spec-valid) layout mutated through the API is no longer well-formed: " + v[4:300],
+                                "# C03 violation: SpecCheck on %s (the layout before the calls: ..._before.cfb; the calls are in the evidence of C04's replay)\n# %s\n" % (keep, v[4:1500]))
+    for f in glob.glob(os.path.join(laydir, "*")):
+        os.remove(f)
     # the large file: > 236 FAT sectors in version 3 (two DIFAT sectors)
     hdir = ctx.path("huge")
     os.makedirs(hdir, exist_ok=True)
